@@ -103,7 +103,8 @@ func replaceTree(s *slip.Scope, tree slip.Object, subs slip.List, kc, tc slip.Ca
 		for i, e := range list {
 			if tail, ok2 := e.(slip.Tail); ok2 {
 				// Need a new tail since it is not a pointer.
-				list[i] = slip.Tail{Value: replaceTree(s, tail.Value, subs, kc, tc, depth)}
+				// The new cdr can be a list or nil.
+				return list[:i].WithCdr(replaceTree(s, tail.Value, subs, kc, tc, depth))
 			} else {
 				list[i] = replaceTree(s, e, subs, kc, tc, depth)
 			}
